@@ -36,11 +36,12 @@ class Undecided(Exception):
 # ------------------------------------------------------------------------------------------
 class W(object):
     """machine integer / bool / char of `width` bits"""
-    __slots__ = ("width", "val", "bits", "signed")
+    __slots__ = ("width", "val", "bits", "signed", "term")
 
-    def __init__(self, width, val=None, bits=None, signed=False):
+    def __init__(self, width, val=None, bits=None, signed=False, term=None):
         self.width = width
         self.signed = signed
+        self.term = term
         if val is not None:
             self.val = val & ((1 << width) - 1)
             self.bits = None
@@ -107,13 +108,51 @@ def watoms(width, prefix, signed=False):
     return W(width, bits=[B.atom("%s[%d]" % (prefix, i)) for i in range(width)], signed=signed)
 
 
+TRACK = [False]   # build word-level terms next to the bit vectors (rule C08.S)
+
+
+def tm(w):
+    """word-level term of a word, if known"""
+    if w.val is not None:
+        return ("c", w.val)
+    return w.term
+
+
+def mk_term(op, a, b=None):
+    if not TRACK[0]:
+        return None
+    ta = tm(a)
+    if ta is None:
+        return None
+    if b is None:
+        return (op, ta)
+    tb = tm(b)
+    if tb is None:
+        return None
+    full = (1 << a.width) - 1
+    if op == "and":
+        for x, y in ((ta, tb), (tb, ta)):
+            if x == ("c", full):
+                return y
+            if x == ("c", 0):
+                return ("c", 0)
+    if op in ("or", "xor", "add"):
+        for x, y in ((ta, tb), (tb, ta)):
+            if x == ("c", 0):
+                return y
+    if op in ("and", "or", "xor", "add", "eq"):
+        ta, tb = sorted((ta, tb), key=repr)
+    return (op, ta, tb)
+
+
 class CS(object):
     """Boolean that is a conjunction 'every clause function is 0' (neg=False) or its negation."""
-    __slots__ = ("clauses", "neg")
+    __slots__ = ("clauses", "neg", "term")
 
-    def __init__(self, clauses, neg=False):
+    def __init__(self, clauses, neg=False, term=None):
         self.clauses = frozenset(clauses)
         self.neg = neg
+        self.term = term
 
     def has_top(self):
         return None in self.clauses
@@ -246,13 +285,14 @@ def w_bitwise(op, a, b):
         return W(a.width, val=a.val ^ b.val, signed=a.signed)
     f = {"BitAnd": B.band, "BitOr": B.bor, "BitXor": B.bxor}[op]
     ab, bb = a.all_bits(), b.all_bits()
-    return W(a.width, bits=[f(x, y) for x, y in zip(ab, bb)], signed=a.signed)
+    return W(a.width, bits=[f(x, y) for x, y in zip(ab, bb)], signed=a.signed,
+             term=mk_term({"BitAnd": "and", "BitOr": "or", "BitXor": "xor"}[op], a, b))
 
 
 def w_not(a):
     if a.val is not None:
         return W(a.width, val=~a.val, signed=a.signed)
-    return W(a.width, bits=[B.bnot(x) for x in a.bits], signed=a.signed)
+    return W(a.width, bits=[B.bnot(x) for x in a.bits], signed=a.signed, term=mk_term("not", a))
 
 
 def w_shl(a, k):
@@ -283,7 +323,7 @@ def w_add(a, b, carry_in=ZERO):
     for x, y in zip(ab, bb):
         out.append(B.bxor(B.bxor(x, y), c))
         c = B.bmaj(x, y, c)
-    return W(a.width, bits=out, signed=a.signed), c
+    return W(a.width, bits=out, signed=a.signed, term=mk_term("add", a, b) if carry_in == ZERO else None), c
 
 
 def w_sub(a, b):
@@ -299,14 +339,20 @@ def w_eq(a, b):
     """Boolean value of a == b"""
     if a.val is not None and b.val is not None:
         return wbool(a.val == b.val)
-    return mk_cs([B.bxor(x, y) for x, y in zip(a.all_bits(), b.all_bits())])
+    r = mk_cs([B.bxor(x, y) for x, y in zip(a.all_bits(), b.all_bits())])
+    if TRACK[0]:
+        r.term = mk_term("eq", a, b)
+    return r
 
 
 def b_not(v):
     if isinstance(v, CS):
-        return CS(v.clauses, not v.neg)
+        return CS(v.clauses, not v.neg, term=("not", v.term) if v.term is not None else None)
     if isinstance(v, W):
-        return w_not(v)
+        r = w_not(v)
+        if v.term is not None and r.term is None and r.val is None:
+            r.term = ("not", v.term)
+        return r
     return TopV("not")
 
 
